@@ -94,6 +94,11 @@ impl DeferredRead {
                     iin2
                 });
                 self.clear();
+                #[cfg(dnp3_verif)]
+                {
+                    crate::util::verif_trace::log("db deferred_select".to_string());
+                    crate::util::verif_trace::log(format!("> iin2 {}", iin2.value));
+                }
                 Some(x.merge(iin2))
             }
         }
